@@ -540,7 +540,8 @@ Conf(hp, rp, r) ==
 (***************************************************************************)
 Init == /\ l = 1
         /\ h = NewHist(EmptyHist(Rec[1]), Rec[1])
-        /\ out = [viol |-> {}, div |-> {}, runs |-> 1, steps |-> 0, conf |-> 0]
+        /\ out = [runs |-> 1, steps |-> 0, conf |-> 0]
+        /\ TLCSet(1, {}) /\ TLCSet(2, {})       \* accumulated violations / divergences live outside the state
 
 Next ==
   /\ l < Len(Rec)
@@ -585,17 +586,19 @@ Next ==
                                        LET S == {ln[j].t : j \in {x \in 1..Len(ln) : ln[x].n = n}}
                                            base == IF ND(r, n).inc # h.inc[n] THEN 0 ELSE @[n]  \* new process, new subscription
                                        IN IF S = {} THEN base ELSE CHOOSE m \in S : \A o \in S : m >= o]]
-                 rdiv == IF Len(Evs(r, "RoundEnd")) > 0 /\ r.a.a \notin {"Recover", "Drain", "Final"}
+                 rdiv == IF Len(Evs(r, "RoundEnd")) > 0 /\ r.a.a \notin {"Recover", "Drain", "Final", "RecoverEnd", "DrainEnd", "FinalEnd"}
                          THEN LET c == Evs(r, "RoundEnd")[1].n
                               IN IF RoundPost(hp2, rp, r, c) THEN {} ELSE {D(r, "round-outcome", c)}
                          ELSE {}
              IN /\ h' = hn2
-                /\ out' = [out EXCEPT !.viol = @ \cup Monitors(h, hn, rp, r),
-                                      !.div = @ \cup Conf(h, rp, r) \cup rdiv,
-                                      !.steps = @ + 1,
+                /\ TLCSet(1, TLCGet(1) \cup Monitors(h, hn, rp, r))
+                /\ TLCSet(2, TLCGet(2) \cup Conf(h, rp, r) \cup rdiv)
+                /\ out' = [out EXCEPT !.steps = @ + 1,
                                       !.conf = @ + (IF r.applied THEN 1 ELSE 0)]
 
 Spec == Init /\ [][Next]_tvars
 
-Done == (l = Len(Rec)) => JsonSerialize(IOEnv.OUT, out)
+Done == (l = Len(Rec)) =>
+          JsonSerialize(IOEnv.OUT, [viol |-> TLCGet(1), div |-> TLCGet(2), runs |-> out.runs, steps |-> out.steps,
+                                    conf |-> out.conf])
 =============================================================================
